@@ -361,7 +361,7 @@ static void run_gcm_aad_huge(int thorough)
 
 static void run_huge2(const char *what, int thorough)
 {
-        uint64_t len = !strcmp(what, "cbchuge") ? (1ull << 32) + 48 : (1ull << 32) + 10;
+        uint64_t len = !strcmp(what, "cbchuge") ? (1ull << 32) + 4096 + 48 : (1ull << 32) + 10;     /* CBC: beyond 2^32 by more than one pass of every unrolled loop, and not a multiple of 8 or 16 blocks */
         uint8_t *in = alias_in(len + 4096), *out = aligned_alloc(4096, (len + 8191) & ~4095ull);
         if (!out) out_err("cannot allocate %llu bytes", (unsigned long long) len);
         uint8_t key[32], iv[16] __attribute__((aligned(16))), aad[20], eh[32], gh[32], etag[16], tag[16];
